@@ -47,7 +47,7 @@ def c04(r):
 
 
 STRICT_SYNC_SRC = ("model", "stopqueued", "handover", "p2pidle", "crashenum", "retrieve", "writeerr", "adversary")
-STRICT_SYNC_SHAPES = ("ShapeA", "ShapeDup", "ShapeE", "ShapeBig")
+STRICT_SYNC_SHAPES = ("ShapeA", "ShapeDup", "ShapeE", "ShapeBig", "ShapeZ")
 
 
 def syncer_strict(r, traces):
